@@ -77,7 +77,14 @@ pub fn gen_case(seed: u64, family: &str, tier: Tier) -> Case {
         simcfg.p_stay = 0.5;
         simcfg.atomic_load_every = 1;
     }
-    Case { check: "C08".into(), seed, family: family.to_string(), world: w, batches: vec![batch], workers: r.range(1, 6) as usize, run_parallelism: None, simcfg, recorded: None, params: Value::Null }
+    let workers = r.range(1, 6) as usize;
+    if batch.len() >= 2 && r.chance(0.25) {
+        // two caller threads share the application and its prediction caches: each runs half of the queries
+        let k = batch.len() / 2;
+        let batches = vec![batch[..k].to_vec(), batch[k..].to_vec()];
+        return Case { check: "C08".into(), seed, family: family.to_string(), world: w, batches, workers, run_parallelism: None, simcfg, recorded: None, params: json!({"two_callers": true}) };
+    }
+    Case { check: "C08".into(), seed, family: family.to_string(), world: w, batches: vec![batch], workers, run_parallelism: None, simcfg, recorded: None, params: Value::Null }
 }
 
 fn load_uncached(v: &VehicleCfg, model: &str, rate_unit: EnergyRateUnit) -> Result<PredictionModelRecord, String> {
@@ -157,21 +164,26 @@ fn judge(case: &Case, obs: &Obs) -> (Vec<Violation>, BTreeMap<String, u64>, bool
         Traversal::Energy { vehicles, .. } => vehicles.clone(),
         _ => vec![],
     };
-    let run = match obs.runs.get(0) {
-        Some(Some(Ok(r))) => r.clone(),
-        Some(Some(Err(e))) => {
-            v.push(Violation { class: "run-error".into(), detail: e.clone() });
-            return (v, reach, true);
+    // (one run() call, or two handed to run() by two caller threads at the same time)
+    let mut run: Vec<Value> = vec![];
+    for r in &obs.runs {
+        match r {
+            Some(Ok(x)) => run.extend(x.iter().cloned()),
+            Some(Err(e)) => {
+                v.push(Violation { class: "run-error".into(), detail: e.clone() });
+                return (v, reach, true);
+            }
+            None => return (v, reach, true),
         }
-        _ => return (v, reach, true),
-    };
-    let refs = match obs.reference.get(0) {
-        Some(r) if r.iter().all(|x| x.is_some()) => r,
-        _ => {
-            bump("reference_failed", 1);
-            return (v, reach, false);
-        }
-    };
+    }
+    if obs.runs.is_empty() {
+        return (v, reach, true);
+    }
+    let refs: Vec<Option<Vec<Value>>> = obs.reference.iter().flatten().cloned().collect();
+    if refs.is_empty() || !refs.iter().all(|x| x.is_some()) {
+        bump("reference_failed", 1);
+        return (v, reach, false);
+    }
     // (i) with the cache == without the cache, run alone
     let expected: Vec<Value> = refs.iter().flat_map(|x| x.clone().unwrap()).collect();
     for (c, d) in compare_by_request(&expected, &run, 1e-9) {
@@ -425,6 +437,7 @@ impl Check for C08 {
         let (violations, mut reach, nontrivial) = judge(case, &obs);
         reach.insert("preemptions".into(), obs.stats.preemptions);
         reach.insert("futex_waits".into(), obs.stats.futex_waits);
+        reach.insert("two_caller_threads".into(), case.params.get("two_callers").and_then(|x| x.as_bool()).unwrap_or(false) as u64);
         let caches: Vec<Value> = match &case.world.traversal {
             Traversal::Energy { vehicles, .. } => vehicles.iter().map(|x| json!({"vehicle": x.name, "cache": x.cache, "interpolate": x.interpolate, "battery_kwh": x.battery_kwh})).collect(),
             _ => vec![],
@@ -443,7 +456,7 @@ impl Check for C08 {
             nontrivial,
             signature: sig,
             reach,
-            sample: json!({"seed": case.seed, "family": case.family, "vehicles": caches, "workers": case.workers, "queries": case.batches[0].len(), "first_query": case.batches[0][0], "switches": obs.stats.switches,
+            sample: json!({"seed": case.seed, "family": case.family, "vehicles": caches, "workers": case.workers, "queries": case.batches.iter().map(|b| b.len()).sum::<usize>(), "first_query": case.batches[0].first(), "switches": obs.stats.switches,
                 "responses": if std::env::var_os("SIM_DUMP").is_some() { json!(obs.runs) } else { Value::Null }}),
             stats: Some(obs.stats.clone()),
             recorded: Some(obs.recorded.clone()),
